@@ -41,6 +41,8 @@ type run struct {
 	jid     []string // id of the pending join presence
 	lid     []string
 	managed map[int]int
+	cur     []int // occupant address the channel holds
+	req     []int // occupant address the current / last Join asked for
 	tok     []bool
 	member  []bool // specification ghost (observable events only)
 	refused []bool // the last Leave of the channel was answered with an error
@@ -57,7 +59,10 @@ type run struct {
 	problems []string
 }
 
-func occ(a int) jid.JID { return jid.MustParse(fmt.Sprintf("room%d@conf.example.net/nick%d", a, a)) }
+// occupant address a: room a%10, nickname a/10 (so a and a+10 are two nicknames in one room)
+func occ(a int) jid.JID {
+	return jid.MustParse(fmt.Sprintf("room%d@conf.example.net/nick%d", a%10, a/10))
+}
 
 func newRun(r *common.Run, addrs []int) (*run, error) {
 	ctl := c06.NewCtl("muc.join.select", "muc.leave.select")
@@ -81,6 +86,7 @@ func newRun(r *common.Run, addrs []int) (*run, error) {
 	x.jready, x.lready = make([]string, n), make([]string, n)
 	x.jid, x.lid = make([]string, n), make([]string, n)
 	x.tok, x.member, x.refused = make([]bool, n), make([]bool, n), make([]bool, n)
+	x.cur, x.req = append([]int(nil), addrs...), append([]int(nil), addrs...)
 	for i := range x.jst {
 		x.jst[i], x.lst[i] = "idle", "idle"
 	}
@@ -199,7 +205,7 @@ func (x *run) sample() {
 				// error reply to Leave; the property text does not
 				key = "not-joined-after-error-reply-to-leave"
 			}
-			x.r.Fail("membership", key, x.lines(), fmt.Sprintf("channel %d (occupant address %d): Joined()=%c but the history says member=%v", c, x.addrs[c], b[c], want))
+			x.r.Fail("membership", key, x.lines(), fmt.Sprintf("channel %d (occupant address %d): Joined()=%c but the history says member=%v", c, x.cur[c], b[c], want))
 		}
 	}
 	x.trace = append(x.trace, "?"+string(b))
@@ -209,7 +215,18 @@ func (x *run) joinReturned(c int, e c06.Ev) {
 	err, _ := e.Extra.(error)
 	x.jst[c] = "idle"
 	var se stanza.Error
+	cleanup := func() {
+		joined := x.member[c] && !x.refused[c] // by the code's reckoning
+		if cc, ok := x.managed[x.req[c]]; ok && cc == c && !(joined && x.cur[c] == x.req[c]) {
+			delete(x.managed, x.req[c])
+		}
+	}
 	switch {
+	case err != nil && strings.Contains(err.Error(), "occupant JID is in use"): // muc.ErrOccupantInUse (by text: older trees lack the symbol)
+		x.trace = append(x.trace, fmt.Sprintf("R%dre", c))
+		if x.jready[c] != "refused" {
+			x.r.Fail("join-error", "refused-although-address-free", x.lines(), fmt.Sprintf("Join of channel %d was refused with ErrOccupantInUse although no other channel uses the address", c))
+		}
 	case err == nil:
 		x.trace = append(x.trace, fmt.Sprintf("R%dok", c))
 		if x.jready[c] != "self" {
@@ -217,16 +234,20 @@ func (x *run) joinReturned(c int, e c06.Ev) {
 		}
 		x.member[c] = true
 		x.refused[c] = false
-		x.everJoined[x.addrs[c]] = true
+		if old := x.cur[c]; old != x.req[c] {
+			if cc, ok := x.managed[old]; ok && cc == c {
+				delete(x.managed, old)
+			}
+		}
+		x.cur[c] = x.req[c]
+		x.tok[c] = false
+		x.everJoined[x.cur[c]] = true
 	case errors.As(err, &se):
 		x.trace = append(x.trace, fmt.Sprintf("R%dse", c))
 		if x.jready[c] != "err" {
 			x.r.Fail("join-error", "stanza-error-without-error-reply", x.lines(), fmt.Sprintf("Join of channel %d returned a stanza error nobody sent: %v", c, err))
 		}
-		if !x.member[c] || x.refused[c] {
-			// not joined by the code's reckoning (a refused Leave ends the membership)
-			delete(x.managed, x.addrs[c])
-		}
+		cleanup()
 	case errors.Is(err, context.Canceled):
 		x.trace = append(x.trace, fmt.Sprintf("R%dce", c))
 		if x.jready[c] != "ctx" {
@@ -236,10 +257,7 @@ func (x *run) joinReturned(c int, e c06.Ev) {
 			}
 			x.r.Fail("join-success-iff", key, x.lines(), fmt.Sprintf("Join of channel %d returned %v (ready=%q)", c, err, x.jready[c]))
 		}
-		if !x.member[c] || x.refused[c] {
-			// not joined by the code's reckoning (a refused Leave ends the membership)
-			delete(x.managed, x.addrs[c])
-		}
+		cleanup()
 	default:
 		x.problem("Join %d returned %v", c, err)
 	}
@@ -260,8 +278,8 @@ func (x *run) leaveReturned(c int, e c06.Ev) {
 	case errors.As(err, &se):
 		x.trace = append(x.trace, fmt.Sprintf("D%dse", c))
 		x.refused[c] = true
-		if cc, ok := x.managed[x.addrs[c]]; ok && cc == c {
-			delete(x.managed, x.addrs[c])
+		if cc, ok := x.managed[x.cur[c]]; ok && cc == c {
+			delete(x.managed, x.cur[c])
 		}
 	case errors.Is(err, context.Canceled):
 		x.trace = append(x.trace, fmt.Sprintf("D%dce", c))
@@ -283,33 +301,55 @@ func (x *run) act(a string) bool {
 	num := func(k int) int { n, _ := strconv.Atoi(a[k:]); return n }
 	switch {
 	case a[0] == 'J':
-		c := num(1)
+		// J<c> asks for the address the channel holds, J<c>@<a> uses the Nick option
+		spec := strings.Split(a[1:], "@")
+		c, _ := strconv.Atoi(spec[0])
 		if c >= len(x.addrs) || x.jst[c] != "idle" || x.blocked {
 			return false
+		}
+		want := x.cur[c]
+		var opts []muc.Option
+		if len(spec) == 2 {
+			want, _ = strconv.Atoi(spec[1])
+			if want%10 != x.cur[c]%10 {
+				return false // the Nick option cannot change the room
+			}
+			opts = append(opts, muc.Nick(occ(want).Resourcepart()))
 		}
 		x.trace = append(x.trace, a)
 		ctx, cancel := context.WithCancel(context.Background())
 		x.jcancel[c] = cancel
 		label := "j" + strconv.Itoa(c)
 		first := x.chans[c] == nil
-		done := make(chan struct{})
+		from := occ(x.cur[c])
 		x.ctl.Go(label, func() {
 			var err error
 			if first {
 				var ch *muc.Channel
-				ch, err = x.cl.Join(ctx, occ(x.addrs[c]), x.rs.S)
+				ch, err = x.cl.Join(ctx, from, x.rs.S, opts...)
 				x.chans[c] = ch
 			} else {
-				err = x.chans[c].Join(ctx)
+				err = x.chans[c].Join(ctx, opts...)
 			}
-			close(done)
 			x.ctl.Emit(label, "ret:", err)
 		})
+		x.req[c] = want
+		if other, ok := x.managed[want]; ok && other != c {
+			// another channel is registered there: the call must be refused at once
+			x.jready[c] = "refused"
+			x.jst[c] = "insel"
+			if e, ok := x.wait(isEv(label, "ret:"), label+" refused"); ok {
+				x.joinReturned(c, e)
+			} else {
+				x.r.Fail("membership", "second-channel-for-an-occupant-address-accepted", x.lines(), fmt.Sprintf("channel %d asked for occupant address %d which channel %d holds; the call was not refused", c, want, other))
+			}
+			break
+		}
 		x.jst[c], x.jready[c] = "parked", ""
-		x.managed[x.addrs[c]] = c
+		x.managed[want] = c
 		x.tok[c] = false
 		x.wait(isEv(label, "park:muc.join.select"), label+" before its select")
-		x.jid[c] = x.awaitPresence(occ(x.addrs[c]).String(), false)
+		x.jid[c] = x.awaitPresence(occ(want).String(), false)
 	case a[0] == 's':
 		c := num(1)
 		if c >= len(x.addrs) || x.jst[c] != "parked" || (x.blocked && x.blockedBy != "j"+strconv.Itoa(c)) {
@@ -343,11 +383,12 @@ func (x *run) act(a string) bool {
 			if reg && x.jst[c] != "idle" && x.jready[c] != "" {
 				return false // keep the select of the pending join deterministic
 			}
+			self := reg && x.jst[c] != "idle" && x.req[c] == ad // the presence the pending join waits for
 			x.trace = append(x.trace, a)
 			before := x.upres
 			x.feed(st)
 			switch {
-			case reg && x.jst[c] == "insel":
+			case self && x.jst[c] == "insel":
 				x.jready[c] = "self"
 				if e, ok := x.wait(isEv("j"+strconv.Itoa(c), "ret:"), "join return after self-presence"); ok {
 					x.joinReturned(c, e)
@@ -355,15 +396,15 @@ func (x *run) act(a string) bool {
 					x.r.Fail("join-success-iff", "self-presence-did-not-complete-join", x.lines(), fmt.Sprintf("self-presence for occupant address %d was sent while Join of channel %d waited, the call did not return", ad, c))
 				}
 				x.sync()
-			case reg && x.jst[c] == "parked":
+			case self && x.jst[c] == "parked":
 				x.jready[c] = "self"
 				x.blocked, x.blockedBy = true, "j"+strconv.Itoa(c) // the handler waits for the joiner to reach its select
 			default:
 				x.sync()
 				x.callbacks()
 				want := 0
-				if reg && x.member[c] && !x.refused[c] {
-					want = 1
+				if reg {
+					want = 1 // an occupant presence of a registered address that completes no join
 				}
 				if x.upres-before != want {
 					key := "presence-of-unjoined-room-not-ignored"
@@ -381,12 +422,14 @@ func (x *run) act(a string) bool {
 			x.feed(st)
 			x.sync()
 			for cc := range x.addrs {
-				if x.addrs[cc] == ad {
+				if x.cur[cc] == ad {
 					x.member[cc] = false
 				}
 			}
 			if reg {
 				delete(x.managed, ad)
+			}
+			if reg && x.cur[c] == ad {
 				x.tok[c] = true
 				if x.lst[c] == "insel" {
 					if e, ok := x.wait(isEv("l"+strconv.Itoa(c), "ret:"), "leave return after unavailable presence"); ok {
@@ -405,7 +448,7 @@ func (x *run) act(a string) bool {
 		x.trace = append(x.trace, a)
 		if a[0] == 'E' {
 			x.jready[c] = "err"
-			x.feed(fmt.Sprintf(`<presence xmlns="jabber:client" from="%s" id="%s" type="error"><error type="cancel"><conflict xmlns="urn:ietf:params:xml:ns:xmpp-stanzas"/></error></presence>`, occ(x.addrs[c]), x.jid[c]))
+			x.feed(fmt.Sprintf(`<presence xmlns="jabber:client" from="%s" id="%s" type="error"><error type="cancel"><conflict xmlns="urn:ietf:params:xml:ns:xmpp-stanzas"/></error></presence>`, occ(x.req[c]), x.jid[c]))
 		} else {
 			x.jready[c] = "ctx"
 			x.jcancel[c]()
@@ -433,7 +476,7 @@ func (x *run) act(a string) bool {
 		})
 		x.lst[c], x.lready[c] = "parked", ""
 		x.wait(isEv(label, "park:muc.leave.select"), label+" before its select")
-		x.lid[c] = x.awaitPresence(occ(x.addrs[c]).String(), true)
+		x.lid[c] = x.awaitPresence(occ(x.cur[c]).String(), true)
 	case a[0] == 'l':
 		c := num(1)
 		if c >= len(x.addrs) || x.lst[c] != "parked" || (x.blocked && x.blockedBy != "l"+strconv.Itoa(c)) {
@@ -462,7 +505,7 @@ func (x *run) act(a string) bool {
 		x.trace = append(x.trace, a)
 		if a[0] == 'E' {
 			x.lready[c] = "err"
-			x.feed(fmt.Sprintf(`<presence xmlns="jabber:client" from="%s" id="%s" type="error"><error type="cancel"><forbidden xmlns="urn:ietf:params:xml:ns:xmpp-stanzas"/></error></presence>`, occ(x.addrs[c]), x.lid[c]))
+			x.feed(fmt.Sprintf(`<presence xmlns="jabber:client" from="%s" id="%s" type="error"><error type="cancel"><forbidden xmlns="urn:ietf:params:xml:ns:xmpp-stanzas"/></error></presence>`, occ(x.cur[c]), x.lid[c]))
 		} else {
 			x.lready[c] = "ctx"
 			x.lcancel[c]()
@@ -475,17 +518,48 @@ func (x *run) act(a string) bool {
 		} else if a[0] == 'E' {
 			x.blocked, x.blockedBy = true, "l"+strconv.Itoa(c)
 		}
-	case a == "I":
+	case a[0] == 'I':
+		// I or I<children>: a message whose children are, in this order,
+		// b body, s subject, l legacy direct-invitation x, u unrelated payload,
+		// m muc#user x with one invite, M muc#user x with two invites, d muc#user x with a decline only
 		if x.blocked {
 			return false
 		}
-		x.trace = append(x.trace, a)
+		kids := a[1:]
+		if kids == "" {
+			kids = "m"
+		}
+		x.trace = append(x.trace, "I"+kids)
 		before := x.inv
-		x.feed(`<message xmlns="jabber:client" from="room0@conf.example.net" to="me@example.net/h"><x xmlns="http://jabber.org/protocol/muc#user"><invite from="friend@example.net/x"><reason>come</reason></invite></x></message>`)
+		var sb strings.Builder
+		sb.WriteString(`<message xmlns="jabber:client" from="room0@conf.example.net" to="me@example.net/h">`)
+		want := 0
+		for _, k := range kids {
+			switch k {
+			case 'b':
+				sb.WriteString(`<body>you are invited</body>`)
+			case 's':
+				sb.WriteString(`<subject>invitation</subject>`)
+			case 'l':
+				sb.WriteString(`<x xmlns="jabber:x:conference" jid="room0@conf.example.net"/>`)
+			case 'u':
+				sb.WriteString(`<thread xmlns="urn:verif">t</thread>`)
+			case 'm':
+				sb.WriteString(`<x xmlns="http://jabber.org/protocol/muc#user"><invite from="friend@example.net/x"><reason>come</reason></invite></x>`)
+				want = 1
+			case 'M':
+				sb.WriteString(`<x xmlns="http://jabber.org/protocol/muc#user"><invite from="friend@example.net/x"/><invite from="other@example.net/y"/></x>`)
+				want = 1
+			case 'd':
+				sb.WriteString(`<x xmlns="http://jabber.org/protocol/muc#user"><decline from="friend@example.net/x"/></x>`)
+			}
+		}
+		sb.WriteString(`</message>`)
+		x.feed(sb.String())
 		x.sync()
 		x.callbacks()
-		if x.inv-before != 1 {
-			x.r.Fail("invite-once", fmt.Sprintf("callback-called-%d-times", x.inv-before), x.lines(), "a mediated invitation must reach HandleInvite exactly once")
+		if x.inv-before != want {
+			x.r.Fail("invite-once", fmt.Sprintf("callback-called-%d-times-want-%d:first-child-%c", x.inv-before, want, kids[0]), x.lines(), fmt.Sprintf("message children %q: HandleInvite was called %d times, the message carries %d mediated invitation element(s)", kids, x.inv-before, want))
 		}
 	case a == "N":
 		if x.blocked {
@@ -596,6 +670,20 @@ var corpus = []struct {
 	{"0,1", "J0,s0,J1,s1,A1,A0,U1,A7,U7,I,N,L0,l0,U0"},
 	{"0,1", "A0,U0,A1,I,N,J1,s1,A0,A1"},         // presences for rooms never joined
 	{"0", "J0,Ej0,s0,J0,s0,A0"},
+	// mediated invitations: the payload first, last, between other children; two invites in one x;
+	// messages without an invitation (body only, legacy direct invitation only, decline)
+	{"0", "Im,Ibm,Imb,Ibsm,Ilm,Iml,Iulbms,Isubml,IM,IbM"},
+	{"0", "Ib,Il,Ibl,Iu,Id,Ibd,N,Im"},
+	// two channels for one occupant address: the second is refused, the first keeps following the room
+	{"0,0", "J0,s0,A0,J1,U0,J1,s1,A0,U0"},
+	{"0,0", "J0,J1,s0,A0,J1,Xj0"},
+	// change of nickname on a re-join (Nick option)
+	{"0", "J0,s0,A0,J0@10,s0,A0,U0,A10,A10,L0,l0,U10"},   // confirmed: 303-style unavailable of the old nick, then the new self-presence
+	{"0", "J0,s0,A0,J0@10,s0,A10,A0,U0,U10"},             // confirmed at once; the old nickname means nothing afterwards
+	{"0", "J0,s0,A0,J0@10,s0,Ej0,A0,U10,U0"},             // refused (conflict): still in the room under the old nickname
+	{"0", "J0,s0,A0,J0@10,s0,Xj0,A10,U0"},                // cancelled
+	{"0", "J0@10,s0,A0,A10,L0,l0,U10"},                   // first join with the Nick option
+	{"0,10", "J0,s0,A0,J1,s1,A10,J0@10,J1@0,U10,U0"},     // the other nickname is taken by our own second channel
 }
 
 func parseAddrs(s string) []int {
@@ -613,10 +701,15 @@ func randSched(rnd *common.Rand, n, length int) []string {
 	var out []string
 	for len(out) < length {
 		c := strconv.Itoa(rnd.Intn(n))
-		a := strconv.Itoa(rnd.Intn(n + 1))
+		a := strconv.Itoa(rnd.Intn(n+1) + 10*(rnd.Intn(3)/2))
 		switch rnd.Intn(20) {
 		case 0, 1, 2:
-			out = append(out, "J"+c)
+			j := "J" + c
+			if rnd.Chance(1, 4) {
+				ci, _ := strconv.Atoi(c)
+				j += "@" + strconv.Itoa(ci%10+10*rnd.Intn(2)) // (re-)join under nickname 0 or 1 of the channel's room
+			}
+			out = append(out, j)
 			if rnd.Chance(3, 4) {
 				out = append(out, "s"+c)
 			}
@@ -642,7 +735,18 @@ func randSched(rnd *common.Rand, n, length int) []string {
 		case 17:
 			out = append(out, "Xl"+c)
 		case 18:
-			out = append(out, "I")
+			// a mediated invitation among other children, in a random order
+			kids := []byte("m")
+			for _, k := range "bslu" {
+				if rnd.Chance(1, 2) {
+					kids = append(kids, byte(k))
+				}
+			}
+			for i := len(kids) - 1; i > 0; i-- {
+				j := rnd.Intn(i + 1)
+				kids[i], kids[j] = kids[j], kids[i]
+			}
+			out = append(out, "I"+string(kids))
 		default:
 			out = append(out, "N")
 		}
@@ -662,6 +766,15 @@ func replayable(trace string) []string {
 	return out
 }
 
+// RunWaits runs the corpus histories (join / leave waits in every ordering with the
+// presences that end them): C06 uses them as its MUC instance.
+func RunWaits(r *common.Run) {
+	for n, c := range corpus {
+		r.Mark("case muc-corpus %d", n)
+		runCase(r, parseAddrs(c.addrs), strings.Split(c.sched, ","), "muc-corpus")
+	}
+}
+
 // Run is the C18 runner.
 func Run(r *common.Run) error {
 	if r.Replay != "" {
@@ -677,9 +790,21 @@ func Run(r *common.Run) error {
 		}
 		return nil
 	}
+	r.Mark("case concurrent 0")
+	runConcurrent(r, 3, r.Pick(10, 40))
+	if r.Race() {
+		for k := 1; k <= 5; k++ {
+			r.Mark("case concurrent %d", k)
+			runConcurrent(r, 1+k, 30)
+		}
+	}
 	for n, c := range corpus {
 		r.Mark("case corpus %d", n)
 		runCase(r, parseAddrs(c.addrs), strings.Split(c.sched, ","), "corpus")
+	}
+	if r.Race() {
+		r.Notes = append(r.Notes, "race-detector run: concurrent scenario and corpus only")
+		return nil
 	}
 	nR := r.Pick(1200, 20000)
 	for n := 0; n < nR && len(r.Failures) < 80 && r.Hist["problem"] < 25; n++ {
@@ -688,6 +813,9 @@ func Run(r *common.Run) error {
 		addrs := make([]int, k)
 		for i := range addrs {
 			addrs[i] = i
+			if i > 0 && r.Rnd.Chance(1, 6) {
+				addrs[i] = []int{0, 10}[r.Rnd.Intn(2)] // a second channel for room 0: same or other nickname
+			}
 		}
 		runCase(r, addrs, randSched(r.Rnd, k, 6+r.Rnd.Intn(30)), "random")
 	}
